@@ -7,7 +7,8 @@
 (* This is deliberately NOT Python's name resolution ("a lot of DWIM",     *)
 (* linker.py:186): the steps, in the order of the code, are                *)
 (*   1. the identifier is the full name of a registered object             *)
-(*      (System.objForFullName = allobjects.get);                          *)
+(*      (System.objForFullName = allobjects.get), or the full name it had  *)
+(*      before it was moved by a re-export (System.find_object);           *)
 (*   2. intersphinx inventories (none in the model: no inventory loaded);  *)
 (*   3. Python-like resolution in o, then in each enclosing object         *)
 (*      (resolveName walking up .parent);                                  *)
@@ -33,7 +34,7 @@ RECURSIVE Chain(_, _)
 Chain(st, o) == IF o = NoObj THEN <<>> ELSE <<o>> \o Chain(st, st.objs[o].par)
 
 Plain(parts) == [i \in 1..Len(parts) |-> P(parts[i])]
-ByFullName(st, parts) == Get(st, Plain(parts))
+ByFullName(st, parts, lin) == FindObject(st, Plain(parts), lin)
 
 \* linker.look_for_name(name, candidates): candidates that contain the first component resolve the name; the set of
 \* distinct results decides (order of the candidates is irrelevant)
@@ -57,7 +58,7 @@ Uncles(st, ch, i, parts, lin, amb) ==
 
 XRef(st, o, parts, lin) ==
    LET ch == Chain(st, o)
-       g  == ByFullName(st, parts)
+       g  == ByFullName(st, parts, lin)
    IN IF g # NoObj THEN [t |-> g, amb |-> 0, step |-> 1]
       ELSE LET u == UpResolve(st, ch, 1, parts, lin)
            IN IF u # NoObj THEN [t |-> u, amb |-> 0, step |-> 3]
@@ -69,9 +70,9 @@ XRef(st, o, parts, lin) ==
 
 \* ---- design-level facts about the search (checked by TLC on every terminal state of Processing)
 \* a full name always wins, whatever the context
-FullNameWins(st, o, parts, lin) == ByFullName(st, parts) # NoObj => XRef(st, o, parts, lin).t = ByFullName(st, parts)
+FullNameWins(st, o, parts, lin) == ByFullName(st, parts, lin) # NoObj => XRef(st, o, parts, lin).t = ByFullName(st, parts, lin)
 \* what Python-like resolution finds in the context itself is what the cross-reference leads to, unless a full name wins
-LocalFirst(st, o, parts, lin) == (ByFullName(st, parts) = NoObj /\ ResolveName(st, o, parts, lin) # NoObj)
+LocalFirst(st, o, parts, lin) == (ByFullName(st, parts, lin) = NoObj /\ ResolveName(st, o, parts, lin) # NoObj)
                                     => XRef(st, o, parts, lin).t = ResolveName(st, o, parts, lin)
 \* the answer is a registered object or nothing
 AnswerRegistered(st, o, parts, lin) == LET x == XRef(st, o, parts, lin) IN x.t = NoObj \/ Registered(st, x.t)
